@@ -1,6 +1,7 @@
 SPECIFICATION Spec
 CONSTANTS
   MaxLevel = 255
+  StrictLen = FALSE
   Shape = "head"
   N = 4
   Alphabet = {0, 1, 2, 3, 4, 64, 128, 193}
